@@ -61,7 +61,7 @@ package keeper
 
 //@ func (msgServer).FinalizeWithdrawal
 // C06: the enqueue side of the hand-over — one notice per id, ids pairwise different (`distinct`, `queue_notices`, `queue_len`)
-//@ property C05 C06
+//@ property C05 C06 C04
 //@ let PROCESSING = types.WITHDRAWAL_STATUS_PROCESSING
 //@ let PAID = types.WITHDRAWAL_STATUS_PAID
 //@ let W = st.bitcoin.Withdrawals
